@@ -121,3 +121,14 @@ def run(ck, prog):
     ck.floor("E1-guard", 2)
     ck.floor("E1-gate", 4)
     ck.floor("E2-provenance", 4)
+
+
+_run_pre_builders = run
+
+
+def run(ck, prog):
+    _run_pre_builders(ck, prog)
+    # every setting of the quantifier is reachable through the public builder chain: setters must not clobber other fields
+    from sa.builders import check_builders
+    check_builders(ck, prog, r"^cluster::dbscan::DBSCANParameters$")
+    ck.floor("E2-builder", 4)
